@@ -17,15 +17,22 @@ from boario.extended_models import ARIOPsiModel  # noqa: E402
 from boario.model_base import ARIOBaseModel  # noqa: E402
 from boario.simulation import Simulation  # noqa: E402
 
-REG_NAMES = ["rA", "rB", "rC", "rD"]
-SEC_NAMES = ["agri", "build", "manu", "serv", "trade"]
+REG_NAMES = ["rA", "rB", "rC", "rD", "rE", "rF"]
+SEC_NAMES = ["agri", "build", "manu", "serv", "trade", "util", "water", "xport"]
 CAT_NAMES = ["gov", "house"]
+# the same positions under less tidy names: spaces, digits ("10 ..." sorts before "2 ..."), mixed case (upper case sorts
+# before lower case), dashes, dots.  Listed in lexicographic (code point) order, like the plain ones, so that the position
+# of a label in these lists is its position in the model.
+ODD_REG_NAMES = ["A 1", "B-2", "c_3", "d.4", "e5", "f 6"]
+ODD_SEC_NAMES = ["10 Agri", "2 build", "Manu fact", "serv.", "trade-x", "util", "water 1", "xport"]
+ODD_CAT_NAMES = ["Gov exp", "house holds"]
+assert ODD_REG_NAMES == sorted(ODD_REG_NAMES) and ODD_SEC_NAMES == sorted(ODD_SEC_NAMES) and ODD_CAT_NAMES == sorted(ODD_CAT_NAMES)
 
 
 # ------------------------------------------------------------------ tables
 
 
-def gen_table(rng: random.Random, m=None, n=None, k=None, kind=None, scale=None) -> dict:
+def gen_table(rng: random.Random, m=None, n=None, k=None, kind=None, scale=None, labels=None) -> dict:
     m = m or rng.choice([1, 2, 2, 3])
     n = n or rng.choice([2, 3, 3, 4])
     k = k or rng.choice([1, 1, 2])
@@ -80,6 +87,8 @@ def gen_table(rng: random.Random, m=None, n=None, k=None, kind=None, scale=None)
             for c in range(F):
                 Y[j][c] = Y[j][c] * 1.7 + scale
     tb = {"m": m, "n": n, "k": k, "kind": kind, "scale": scale, "Z": Z, "Y": Y}
+    lab_rng = random.Random(int(Z[0][0] * 1e6) ^ 0x1ABE1)       # (drawn apart: the table itself is what it was)
+    tb["labels"] = labels or ("odd" if lab_rng.random() < 0.3 else "plain")
     if scale >= 100 and rng.random() < 0.12:
         # whole numbers, integer dtype
         tb["Z"] = [[float(round(v)) for v in row] for row in Z]
@@ -89,6 +98,8 @@ def gen_table(rng: random.Random, m=None, n=None, k=None, kind=None, scale=None)
 
 
 def labels(tb: dict):
+    if tb.get("labels") == "odd":
+        return ODD_REG_NAMES[: tb["m"]], ODD_SEC_NAMES[: tb["n"]], ODD_CAT_NAMES[: tb["k"]]
     return REG_NAMES[: tb["m"]], SEC_NAMES[: tb["n"]], CAT_NAMES[: tb["k"]]
 
 
@@ -468,7 +479,7 @@ def gen_scenario(seed: int, stream: str = "shocked", **over) -> dict:
     if stream == "eventfree" and "scale" not in over and rng.random() < 0.25:
         # very small magnitudes (a table in a huge unit): every flow below NumPy's absolute tolerance 1e-8
         over = dict(over, scale=10.0 ** rng.choice([-9, -12, -15]))
-    tb = gen_table(rng, **{kk: over[kk] for kk in ("m", "n", "k", "kind", "scale") if kk in over})
+    tb = gen_table(rng, **{kk: over[kk] for kk in ("m", "n", "k", "kind", "scale", "labels") if kk in over})
     if stream == "eventfree" and random.Random(seed ^ 0x71).random() < 0.2:
         # one industry nine orders of magnitude smaller than the others (its output per step is below one currency unit
         # of most monetary factors, next to ordinary industries)
